@@ -17,6 +17,7 @@ def setup(J):
             add("g8", 1, 1, kind)
         add("g3", 1, 1, "cmd", extra="prepend", id="C10-g3-i1-m1-cmd-prepend"); add("g8d", 1, 1, "cmd")
         add("g8", 2, 1, "cmd", extra="escparam", id="C10-g8-i2-m1-cmd-backslash-escapes-in-param")
+        add("g3", 1, 1, "cmd", extra="absout", id="C10-g3-i1-m1-cmd-absolute-output"); add("g2", 1, 1, "func", extra="subdir", id="C10-g2-i1-m1-func-subdir-output")
         # a coarse logical clock (700 ms per reading): tasks straddle second boundaries, durations exceed a second
         add("g3", 2, 1, "cmd", clock_step_ms=700, id="C10-g3-i2-m1-cmd-clock700ms"); add("g7", 1, 2, "func", clock_step_ms=1300, id="C10-g7-i1-m2-func-clock1300ms")
         add("g5", 2, 2, "cmd"); add("g6", 1, 1, "cmd"); add("g6b", 2, 1, "cmd"); add("g14a", 1, 1, "cmd"); add("g14a", 2, 2, "func"); add("g8b", 2, 1, "cmd"); add("g14b", 1, 1, "cmd"); add("g14b", 1, 2, "func")
